@@ -986,6 +986,8 @@ def simplify_call(fname, recv, args, kw):
         meth = fname[1]
         if meth == "round":
             return ("call", "round", (recv,) + args, kw)
+        if meth in ("sum", "mean", "max", "min", "median") and not args and not kw:
+            return simplify_call(meth, None, (recv,), ())
         if meth in ("flatten", "tolist", "squeeze") and not args:
             return ("call", ("m", meth), (recv,), kw)
         if meth == "astype":
@@ -995,6 +997,28 @@ def simplify_call(fname, recv, args, kw):
         return ("call", fname, args, kw)
     if fname in ROUND_NAMES:
         return ("call", "round", args, kw)
+    # ---- canonical names for reductions: np.sum(x) / sum(x) / x.sum()  ->  sum(x), likewise mean / max / min / median
+    RED = {"numpy.sum": "sum", "numpy.mean": "mean", "numpy.average": "mean", "numpy.max": "max", "numpy.amax": "max", "numpy.min": "min",
+           "numpy.amin": "min", "numpy.median": "median", "statistics.mean": "mean", "statistics.median": "median"}
+    if fname in RED and len(args) == 1 and not kw:
+        fname = RED[fname]
+    # ---- elementwise ufuncs spelled as functions
+    if fname in ("numpy.hypot", "math.hypot") and len(args) == 2:
+        return T.sqrt(T.add(T.mul(args[0], args[0]), T.mul(args[1], args[1])))
+    if fname == "numpy.square" and len(args) == 1:
+        return T.mul(args[0], args[0])
+    if fname in ("numpy.power", "pow", "math.pow") and len(args) == 2 and args[1][0] == "num":
+        return T.power(args[0], args[1][1])
+    if fname in ("numpy.subtract", "operator.sub") and len(args) == 2:
+        return T.sub(args[0], args[1])
+    if fname in ("numpy.add", "operator.add") and len(args) == 2:
+        return T.add(args[0], args[1])
+    if fname in ("numpy.multiply", "operator.mul") and len(args) == 2:
+        return T.mul(args[0], args[1])
+    if fname in ("numpy.divide", "numpy.true_divide", "operator.truediv") and len(args) == 2:
+        return T.div(args[0], args[1])
+    if fname in ("numpy.negative", "operator.neg") and len(args) == 1:
+        return T.neg(args[0])
     if fname == "bool" and len(args) == 1 and args[0][0] in ("and", "or", "not", "exists", "forall", "ige", "cmp", "in", "bool"):
         return args[0]
     if fname in ("list", "tuple") and len(args) == 1:
@@ -1032,7 +1056,7 @@ def simplify_call(fname, recv, args, kw):
         a = args[0]
         if a[0] == "map":
             return ("forall", T.b_or(T.b_not(a[4]), a[1]), a[2], a[3])
-    if fname in ("numpy.sum", "sum") and len(args) == 1 and args[0][0] in ("arr", "seq"):
+    if fname == "sum" and len(args) == 1 and args[0][0] in ("arr", "seq"):
         out = T.ZERO
         for x in args[0][1]:
             out = T.add(out, x)
@@ -1048,10 +1072,6 @@ def simplify_call(fname, recv, args, kw):
         for x in args[0][1]:
             out = T.add(out, T.mul(x, x))
         return T.sqrt(out)
-    if fname in ("numpy.mean",) and len(args) == 1:
-        return ("call", "mean", args, kw)
-    if fname in ("numpy.median",) and len(args) == 1:
-        return ("call", "median", args, kw)
     return ("call", fname, args, kw)
 
 
